@@ -514,6 +514,9 @@ def c_step(o):
         return "SRecover %s %s" % (cN(o["n"]), cN(o["p"]))
     if t == "sub":
         return "SSub %s %s %s" % (cN(o["n"]), cN(o["s"]), cbool(o.get("filter", False)))
+    if t in ("unsub_begin", "unsub_end"):
+        # the model: the subscriber is gone from the first of the two on; nobody else is affected
+        return "SStall %s %s" % (cN(o["n"]), cN(o["s"]))
     if t == "stall":
         return "SStall %s %s" % (cN(o["n"]), cN(o["s"]))
     raise ValueError(t)
